@@ -19,6 +19,7 @@ REPO = "/repo"
 MAX_VIOLATIONS_PER_SHARD = 40
 MAX_REPLAY_FILES = 12
 MAX_SAMPLES = 6
+ACTIVE_FINDINGS = []
 
 
 def jsonable(x):
@@ -85,8 +86,15 @@ class Result:
         self.samples = []
         self.caps = []  # any cap that was hit (=> not exhaustive)
         self.extra = collections.Counter()
+        self.known = collections.Counter()  # listed known findings that were hit (id -> cases)
 
     def violate(self, leg, case, observed, expected, tags=None, size=0, note=""):
+        tags = jsonable(dict(tags or {}, leg=leg))
+        # listed findings are counted at once so that they cannot crowd new violations out of the cap
+        for f in ACTIVE_FINDINGS:
+            if matches(f, dict(tags=tags)):
+                self.known[f["id"]] += 1
+                return
         self.nviolations += 1
         if len(self.violations) < MAX_VIOLATIONS_PER_SHARD:
             self.violations.append(
@@ -95,7 +103,7 @@ class Result:
                     case=jsonable(case),
                     observed=jsonable(observed),
                     expected=jsonable(expected),
-                    tags=jsonable(dict(tags or {}, leg=leg)),
+                    tags=tags,
                     size=size,
                     note=note,
                 )
@@ -119,6 +127,7 @@ class Result:
             samples=self.samples,
             caps=self.caps,
             extra=dict(self.extra),
+            known=dict(self.known),
         )
 
     def merge(self, d):
@@ -130,6 +139,7 @@ class Result:
         self.outcomes.update(d["outcomes"])
         self.classes.update(d["classes"])
         self.extra.update(d["extra"])
+        self.known.update(d.get("known", {}))
         self.nviolations += d["nviolations"]
         self.violations.extend(d["violations"])
         for s in d["samples"]:
@@ -153,11 +163,16 @@ def _worker_init():
     assert os.path.realpath(flox.__file__).startswith(REPO + "/flox"), flox.__file__
 
 
+def activate_findings(pid):
+    ACTIVE_FINDINGS[:] = [f for f in load_findings() if f["property"] == pid and f.get("status", "open") == "open"]
+
+
 def _run_one(args):
     modname, shard = args
     t0 = time.time()
     try:
         mod = importlib.import_module(modname)
+        activate_findings(mod.PROPERTY)
         res = mod.run_shard(shard)
         d = res.to_dict() if isinstance(res, Result) else res
     except BaseException as e:  # a harness crash is reported, never swallowed
@@ -227,23 +242,13 @@ def run_check(modname, tier, seed, nproc=None):
     if hasattr(mod, "finish"):
         mod.finish(total, tier, seed)
 
-    findings = [f for f in load_findings() if f["property"] == pid]
-    known = collections.OrderedDict()
-    new = []
-    for v in total.violations:
-        for f in findings:
-            if matches(f, v):
-                known.setdefault(f["id"], [f, 0, v])
-                known[f["id"]][1] += 1
-                break
-        else:
-            new.append(v)
-    # violations beyond the per-shard cap are not individually classified; they only matter if
-    # something new was found anyway (the cap is per shard and per-shard lists are simplest-first)
+    findings = {f["id"]: f for f in load_findings() if f["property"] == pid}
+    new = list(total.violations)
+    # violations beyond the per-shard cap are not individually listed (per-shard lists are simplest-first)
     new.sort(key=lambda v: (v.get("size", 0), json.dumps(v["case"], sort_keys=True)))
 
-    for fid, (f, n, v) in known.items():
-        print(f"KNOWN-FINDING: property={pid} {fid}: {f['what']} (matched {n} explored cases)")
+    for fid, n in sorted(total.known.items()):
+        print(f"KNOWN-FINDING: property={pid} {fid}: {findings[fid]['what']} (matched {n} explored cases)")
 
     replay_paths = []
     seen_classes = set()
@@ -285,7 +290,7 @@ def run_check(modname, tier, seed, nproc=None):
         bounds=mod.bounds(tier, seed) if hasattr(mod, "bounds") else {},
         shards=len(shards),
         slowest_shards=[dict(wall_s=round(w, 2), shard=s) for w, s in sorted(walls, key=lambda t: -t[0])[:3]],
-        known_findings_matched={fid: n for fid, (f, n, v) in known.items()},
+        known_findings_matched=dict(total.known),
         explanation=getattr(mod, "EXPLANATION", ""),
     )
     ev = dict(
@@ -296,7 +301,7 @@ def run_check(modname, tier, seed, nproc=None):
         coverage=coverage,
         assumptions=list(getattr(mod, "ASSUMPTIONS", [])),
         wall_s=round(wall, 2),
-        violations=len(new) + max(0, total.nviolations - len(total.violations)) if new else 0,
+        violations=int(total.nviolations),
     )
     from . import evidence
 
@@ -304,7 +309,7 @@ def run_check(modname, tier, seed, nproc=None):
     print(
         f"{pid} tier={tier} seed={seed}: states={total.states} transitions={total.transitions} "
         f"evaluations={total.evaluations} compared={total.compared} nontrivial={total.nontrivial} "
-        f"violations(new)={len(new)} known={sum(n for _, n, _ in known.values())} wall={wall:.1f}s "
+        f"violations(new)={total.nviolations} known={sum(total.known.values())} wall={wall:.1f}s "
         f"exhaustive={exhaustive}"
     )
     print("  outcomes:", dict(total.outcomes))
@@ -317,6 +322,7 @@ def run_replay(path):
     _worker_init()
     mod = importlib.import_module(payload["module"])
     pid = payload["property"]
+    ACTIVE_FINDINGS[:] = []  # a replay shows everything it reproduces; classification happens below
     outs = []
     for _ in range(2):  # a replay must be deterministic: run it twice
         r = mod.replay(payload)
